@@ -120,7 +120,11 @@ fn kind_of(k: usize) -> Kind {
         1 => Kind::Sized(u64::MAX),
         2 => Kind::ExplicitTe,
         3 => Kind::DespiteGet,
-        _ => Kind::DefaultChunkedHttp10,
+        4 => Kind::DefaultChunkedHttp10,
+        5 => Kind::ExplicitTeOtherCase(false),
+        6 => Kind::ExplicitTeOtherCase(true),
+        7 => Kind::TeAndCl(3),
+        _ => Kind::TeTwoLinesAndCl(3),
     }
 }
 
@@ -145,8 +149,13 @@ fn check_sized_small(total: u64, sent: usize, n: usize, st: &mut Stats) -> Resul
 }
 
 fn exec_enum(t: &mut Tape, st: &mut Stats) -> Result<(), String> {
-    let k = t.below(3);
+    let k = t.below(4);
     let n = t.below(ENUM_MAX as usize + 1);
+    if k == 3 {
+        // caller-supplied framing in unusual but legal shapes: coding name in another case, Content-Length next to chunked
+        // (chunked wins and the declared length is no limit), codings on two lines
+        return check_one(kind_of(5 + n % 4), n, st);
+    }
     if k == 2 {
         // every n also against a small declared length, fresh and after some of it was sent; and over HTTP/1.0
         check_sized_small(1000, 0, n, st)?;
@@ -157,7 +166,7 @@ fn exec_enum(t: &mut Tape, st: &mut Stats) -> Result<(), String> {
 }
 
 fn exec_random(t: &mut Tape, st: &mut Stats) -> Result<(), String> {
-    let k = t.below(5);
+    let k = t.below(9);
     // 0 => just above the enumerated range; otherwise up to 2^22 with a bias to boundaries
     let n = match t.weighted(&[2, 3, 3]) {
         0 => ENUM_MAX as usize + 1 + t.below(4096),
@@ -174,10 +183,11 @@ fn exec_random(t: &mut Tape, st: &mut Stats) -> Result<(), String> {
 pub static DEF: PropDef = PropDef {
     id: "C18",
     rule: "enumeration: every output length n in 0..=30808 x {chunked, length-delimited with a huge declared length, chunked over \
-HTTP/1.0; plus calculate_max_input(n) == n on a 1000-byte declared length, fresh and after 300..999 bytes were sent} on a Flow in the \
+HTTP/1.0, caller-supplied framing in unusual legal shapes rotating with n (Transfer-Encoding: Chunked / CHUNKED, chunked next to a \
+Content-Length of 3, codings on two lines next to a Content-Length); plus calculate_max_input(n) == n on a 1000-byte declared length, fresh and after 300..999 bytes were sent} on a Flow in the \
 body state: m = calculate_max_input(n) must satisfy m <= n, m(n-1) <= m(n), m == n when not chunked, and \
 one write of m pattern bytes into an n-byte buffer must consume exactly m and decode (strict chunk decoder / \
-identity) to that input. random: n up to 2^22 biased to multiples of the chunk unit, four body kinds. \
+identity) to that input. random: n up to 2^22 biased to multiples of the chunk unit, nine body kinds. \
 non-trivial = m > 0 and n within 16 of a hex-digit boundary (16^k + overhead) or of a multiple of \
 chunk+overhead; distinct by (n, chunked).",
     assumptions: &[
@@ -187,8 +197,8 @@ chunk+overhead; distinct by (n, chunked).",
     exec: exec_enum,
     enums: &[EnumDef {
         name: "all_n",
-        count: |_| 3 * (ENUM_MAX + 1),
-        tape: |_, idx| vec![(idx % 3) as u32, (idx / 3) as u32],
+        count: |_| 4 * (ENUM_MAX + 1),
+        tape: |_, idx| vec![(idx % 4) as u32, (idx / 4) as u32],
         exhaustive: true,
         exec: None,
     }],
